@@ -364,7 +364,10 @@ def tasks(tier, seed):
     return out
 
 
-REQUIRED = ["drift:%s" % n for n in DRIVERS] + ["drift_in_later_epoch:%s" % n for n in DRIVERS] + [
+# per-detector counters are demanded for every detector whose alarms do not depend on random draws with only a few
+# dozen occurrences (LinearFourRates: tens of drifts inside the bound, seed dependent - reported, not demanded)
+_NOT_DEMANDED = ("LinearFourRates",)
+REQUIRED = ["drift:%s" % n for n in DRIVERS if n not in _NOT_DEMANDED] + ["drift_in_later_epoch:%s" % n for n in DRIVERS if n not in _NOT_DEMANDED] + [
     "drift_transitions",
     "warning_transitions",
     "restarts",
